@@ -26,6 +26,7 @@ use std::cmp::Ordering;
 use std::collections::BTreeMap;
 use std::io::{self, Write};
 use std::str::FromStr;
+use std::time::{Duration, UNIX_EPOCH};
 use std::sync::Mutex;
 use bcder::Mode;
 use bcder::encode::{PrimitiveContent, Values};
@@ -434,13 +435,13 @@ fn main() {
         v.sort(); v.dedup(); v
     } else { vec![0, 1, 43200, 86398, 86399] };
     let sp = ctx.space("time.calendar_sweep",
-        "every calendar day 0001-01-01..9999-12-31 (own month-length walk, cross-checked per day against days-from-civil) x listed seconds of the day: instant -> Time -> encode_varied must equal the hand-built TLV (UTCTime iff 1950<=year<=2049); hand-built TLV -> take_from and take_opt_from must give the instant back; for 1950..2049 the GeneralizedTime form of the same instant must decode to it too; the deprecated to_binary_time must equal timestamp(); non-trivial = every (day, second) pair, all distinct by construction");
+        "every calendar day 0001-01-01..9999-12-31 (own month-length walk, cross-checked per day against days-from-civil) x listed seconds of the day: instant -> Time -> encode_varied must equal the hand-built TLV (UTCTime iff 1950<=year<=2049); hand-built TLV -> take_from and take_opt_from must give the instant back; for 1950..2049 the GeneralizedTime form of the same instant must decode to it too; the deprecated to_binary_time must equal timestamp(); every one of these valid contents under the OTHER time tag must be rejected by both decoders; the same second with a sub-second part (and, for the last second of a minute, in chrono's leap-second representation) must encode identically; non-trivial = every (day, second) pair, all distinct by construction");
     sp.set("seconds_of_day", serde_json::json!(sods_all));
     let sods = &sods_all;
     (1i64..=9999).into_par_iter().for_each(|y| {
         let mut lf = Lf::new(&ctx);
         let mut buf = Vec::with_capacity(20);
-        let (mut n_utc, mut n_gen, mut evals, mut days) = (0u64, 0u64, 0u64, 0u64);
+        let (mut n_utc, mut n_gen, mut evals, mut days, mut n_other) = (0u64, 0u64, 0u64, 0u64, 0u64);
         let mut running = days_by_counting(y, 1, 1);
         for mo in 1..=12u32 { for d in 1..=dim(y, mo) {
             let dn = days_from_civil(y, mo, d);
@@ -471,9 +472,32 @@ fn main() {
                             if b != Ok(Some((ts, 0))) { lf.fail("C17.time.roundtrip.take_opt", || show(f), || format!("take_opt_from gave {:?}, expected unix {ts}", b)) }
                         }
                     }
+                    // the same content under the other time tag names no time
+                    let mut o = f.clone(); o[0] = if f[0] == UTC { GEN } else { UTC };
+                    evals += 2; n_other += 1;
+                    match guard(|| (lib_take(&o), lib_take_opt(&o))) {
+                        Err(p) => lf.fail("C17.time.decode.no_panic", || show(&o), || p.clone()),
+                        Ok((a, b)) => {
+                            if let Ok(got) = a { lf.fail("C17.time.decode.reject", || show(&o), || format!("accepted as {} although the content has the layout of the other time type", render_ts(got.0))) }
+                            if let Ok(Some(got)) = b { lf.fail("C17.time.take_opt.reject", || show(&o), || format!("accepted as {}", render_ts(got.0))) }
+                        }
+                    }
+                }
+                // the same second reached with a sub-second part, and (last second of a minute) in chrono's leap-second representation, encodes the same
+                for ns in [999_999_999u32, 1_000_000_000, 1_999_999_999] {
+                    if ns >= 1_000_000_000 && sod % 60 != 59 { continue }
+                    if let Some(dt) = DateTime::<Utc>::from_timestamp(ts, ns) {
+                        evals += 1;
+                        let want = model_encode(y, mo, d, sod, None);
+                        match guard(|| { lib_encode_varied(Time::new(dt), &mut buf); }) {
+                            Err(p) => lf.fail("C17.time.encode.no_panic", wit, || p.clone()),
+                            Ok(()) => if buf != want { lf.fail("C17.time.encode.form", || format!("{} +{ns}ns", wit()), || format!("encode_varied gave {} expected {}", show(&buf), show(&want))) }
+                        }
+                    }
                 }
             }
         }}
+        sp.outcomes_n("other-tag-rejected", n_other);
         sp.evals(evals); sp.nontrivial(days * sods.len() as u64);
         sp.outcomes_n("utctime", n_utc); sp.outcomes_n("generalizedtime", n_gen);
     });
@@ -604,12 +628,19 @@ fn main() {
 
     // ---------------------------------------------------------------- (5)
     let sp = ctx.space("time.shapes",
-        "for each of the 12 seeds: every proper prefix, the string without Z, with an extra 0 / Z / 00 / space appended or prepended, fractional seconds (.5 .000 ,5), zone offsets (+0100 -0500 +0000 in place of and after Z), seconds omitted, the content under the other time tag and under 12 foreign tags (incl. constructed 37/38); non-trivial = every (tag, content) pair; take_opt_from must not yield a time for a foreign tag");
+        "for each of the 12 seeds: every proper prefix, every content length 0..=40, 63..65, 127..129, 255..257 made of the seed's digits (with and without a final Z), the string without Z, with an extra 0 / Z / 00 / space appended or prepended, fractional seconds (.5 .000 ,5), zone offsets (+0100 -0500 +0000 in place of and after Z), seconds omitted, the content under the other time tag and under 12 foreign tags (incl. constructed 37/38); non-trivial = every (tag, content) pair; take_opt_from must not yield a time for a foreign tag");
     {
         let mut cases: Vec<(u8, Vec<u8>)> = Vec::new();
         for &(tag, s) in &seeds {
             let b = s.as_bytes(); let body = &b[..b.len() - 1];
             for l in 0..b.len() { cases.push((tag, b[..l].to_vec())) }
+            // every content length 0..=40 (and 63..65, 127..129, 255..257): digits of the seed repeated, with and without the final Z
+            for l in (0..=40usize).chain([63, 64, 65, 127, 128, 129, 255, 256, 257]) { for z in [true, false] {
+                let body = &b[..b.len() - 1];
+                let mut v: Vec<u8> = (0..l).map(|i| body[i % body.len()]).collect();
+                if z && l > 0 { v[l - 1] = b'Z' }
+                cases.push((tag, v))
+            }}
             for suf in [&b"0"[..], b"Z", b"00", b" ", b"\0", b"ZZ"] { let mut v = b.to_vec(); v.extend_from_slice(suf); cases.push((tag, v)) }
             for pre in [&b"0"[..], b" ", b"+", b"00"] { let mut v = pre.to_vec(); v.extend_from_slice(b); cases.push((tag, v)) }
             for frac in [&b".5Z"[..], b".000Z", b",5Z", b".Z", b".0Z"] { let mut v = body.to_vec(); v.extend_from_slice(frac); cases.push((tag, v)) }
@@ -767,6 +798,20 @@ fn main() {
                     if back != Ok(((ta, 0), (tb, 0))) { lf.fail("C17.validity.der.decode", || format!("der={}", hex(&want)), || format!("got {:?}", back)) }
                 }
             }
+            // either member under the other time tag: not a validity
+            for which in 0..2 {
+                let (mut xa, mut xb) = (ea.clone(), eb.clone());
+                let x = if which == 0 { &mut xa } else { &mut xb };
+                x[0] = if x[0] == UTC { GEN } else { UTC };
+                let mut body = xa.clone(); body.extend_from_slice(&xb);
+                let bad = tlv(0x30, &body);
+                sp.eval();
+                match guard(|| Mode::Der.decode(&bad[..], |cons| Validity::take_from(cons)).map(|v| (inst(v.not_before()), inst(v.not_after()))).ok()) {
+                    Err(p) => lf.fail("C17.validity.no_panic", || format!("der={}", hex(&bad)), || p.clone()),
+                    Ok(Some(got)) => lf.fail("C17.validity.der.reject", || format!("der={}", hex(&bad)), || format!("accepted as [{}, {}] although one member carries the other time type's tag", render_ts(got.0.0), render_ts(got.1.0))),
+                    Ok(None) => sp.outcome("swapped-tag-rejected"),
+                }
+            }
             sp.evals(2);
             if ea[0] != eb[0] { sp.nontrivial(1); sp.outcome("mixed-forms") } else if ea[0] == UTC { sp.outcome("both-utctime") } else { sp.outcome("both-generalizedtime") }
         }}
@@ -839,7 +884,7 @@ fn main() {
 
     // ---------------------------------------------------------------- (10)
     let sp = ctx.space("serial.text",
-        "decimal strings of 0,1,9,10,255,256,2^63,2^64-1,2^64,2^127,2^128,2^158,2^159-2,2^159-1,2^159,2^159+1,2^160-1,2^160,10^47,10^48,10^49 each plain and with prefixes + - space 0 00 0x, suffixes space newline L .0, an inner _ , space, non-ASCII digits, and the last digit +-1: FromStr accepts iff all characters are ASCII digits and the value is < 2^159 and then equals the value; the empty string is not judged; non-trivial = every string (deduplicated)");
+        "decimal strings of 0,1,9,10,255,256,2^63,2^64-1,2^64,2^127,2^128,2^158,2^159-2,2^159-1,2^159,2^159+1,2^160-1,2^160, 10^z and 10^z-1 for every z in 1..=64, 9..9 and 0..07 of 127..65536 digits, each plain and with prefixes + - space 0 00 0x, suffixes space newline L .0, an inner _ , space, non-ASCII digits, and the last digit +-1: FromStr accepts iff all characters are ASCII digits and the value is < 2^159 and then equals the value; the empty string is not judged; non-trivial = every string (deduplicated)");
     {
         let pow2 = |k: usize| -> Vec<u8> { let mut v = vec![0u8; 21]; v[20 - k / 8] = 1 << (k % 8); v };
         let sub1 = |mut v: Vec<u8>| -> Vec<u8> { for i in (0..v.len()).rev() { if v[i] == 0 { v[i] = 0xFF } else { v[i] -= 1; break } } v };
@@ -847,7 +892,8 @@ fn main() {
         let mut nums: Vec<String> = vec!["0", "1", "9", "10", "255", "256"].into_iter().map(String::from).collect();
         for k in [63usize, 64, 127, 128, 158, 159, 160] { nums.push(dec_of(&pow2(k))); nums.push(dec_of(&sub1(pow2(k)))); nums.push(dec_of(&add1(pow2(k)))); }
         nums.push(dec_of(&sub1(sub1(pow2(159)))));
-        for z in [47usize, 48, 49, 60] { nums.push(format!("1{}", "0".repeat(z))); nums.push("9".repeat(z)); }
+        for z in 1usize..=64 { nums.push(format!("1{}", "0".repeat(z))); nums.push("9".repeat(z)); }
+        for z in [127usize, 128, 129, 255, 256, 257, 1023, 1024, 1025, 4096, 65536] { nums.push("9".repeat(z)); nums.push(format!("{}7", "0".repeat(z))) }
         let mut strings: Vec<String> = vec![String::new()];
         for n in &nums {
             strings.push(n.clone());
@@ -862,7 +908,7 @@ fn main() {
         for st in &strings {
             sp.eval(); sp.nontrivial(1);
             let want: Option<[u8; 20]> = octets_of_dec(st).and_then(|o| pad20(&o)).filter(|a| a[0] & 0x80 == 0);
-            let wit = || format!("text={st:?}");
+            let wit = || if st.len() > 120 { format!("text={:?}...({} chars)", &st[..st.char_indices().nth(60).map_or(st.len(), |x| x.0)], st.chars().count()) } else { format!("text={st:?}") };
             match guard(|| Serial::from_str(st).ok().map(|s| s.into_array())) {
                 Err(p) => lf.fail("C17.serial.no_panic", wit, || p.clone()),
                 Ok(got) => {
@@ -883,7 +929,7 @@ fn main() {
     // ---------------------------------------------------------------- (11)
     let small = serial_arrays(2);
     let sp = ctx.space("serial.der_inputs",
-        "for every array with <= 2 non-zero octets: the INTEGER contents {minimal, one and two redundant leading 00, sign octet dropped, FF-prefixed, empty} under tag 02 and the minimal content under tags 0A, 03, 04: whatever Serial::take_from accepts must decode to the number the octets denote (two's complement, below 2^159) and re-encode to the same octets; the minimal encoding of a number below 2^159 must be accepted; non-trivial = every (tag, content), deduplicated per array");
+        "for every array with <= 2 non-zero octets: the INTEGER contents {(for arrays with <= 1 non-zero octet) every content length 1..=40 of the form xx 00 .. 00: 21 octets and more cannot be a serial; minimal, one and two redundant leading 00, sign octet dropped, FF-prefixed, empty} under tag 02 and the minimal content under tags 0A, 03, 04: whatever Serial::take_from accepts must decode to the number the octets denote (two's complement, below 2^159) and re-encode to the same octets; the minimal encoding of a number below 2^159 must be accepted; non-trivial = every (tag, content), deduplicated per array");
     small.par_chunks(128).for_each(|chunk| {
         let mut lf = Lf::new(&ctx); let mut oc = Oc::new(); let mut n = 0u64;
         for a in chunk {
@@ -893,6 +939,7 @@ fn main() {
             if min[0] == 0 && min.len() > 1 { variants.push((2, min[1..].to_vec())) }
             { let mut v = vec![0xFF]; v.extend_from_slice(&min); variants.push((2, v)) }
             variants.push((2, vec![]));
+            if a.iter().filter(|x| **x != 0).count() <= 1 { for l in 1..=40usize { let mut v = vec![0u8; l]; v[0] = if a[19] == 0 { 0x01 } else { a[19] & 0x7F | 1 }; variants.push((2, v)) } }
             for t in [0x0Au8, 0x03, 0x04] { variants.push((t, min.clone())) }
             variants.sort(); variants.dedup();
             for (tag, c) in variants {
@@ -1088,6 +1135,92 @@ fn main() {
         sp.sample_str(|| "short_random(len=4) takes 16 octets from the signer".to_string());
     }
     sp.done(true, "22 calls x 18 patterns");
+
+    // ---------------------------------------------------------------- (13c)
+    let sp = ctx.space("time.value_routes",
+        "the route by which a Time is obtained as a dimension: 24 anchor seconds (ends of days, months, leap days, years, both pivots, range ends, leap-second dates, a mid-day :59) x sub-second parts {0, 1 ns, .5, .999999999} and chrono's leap-second representation (second 59 + 1.0, 1.5, 1.999999999 s) x routes {Time::new(chrono value), Time::utc, Time::from_str and serde_json over RFC 3339 spellings (Z, +00:00, +01:00, -05:30, lower case, space separator, second written 60 for the leap form), serde to_string -> from_str, From<SystemTime>, Validity::new(t,t) accessors, t + d and t - d for d in {0, 1 ns, 0.5 s, 1 s, 1 day, 7 days, 365 days, 366 days}}: whatever Time comes out (years 1..9999), encode_varied / encode_generalized_time / encode_utc_time must write the reference TLV of its timestamp() (whole seconds, a leap second folded onto :59 as chrono's timestamp() does) and the decoders must give that second back; spellings the library refuses are counted, not judged; non-trivial = values with a sub-second or leap-second part");
+    {
+        let anchors: Vec<(i64, u32, u32, u32)> = vec![(1, 1, 1, 0), (1, 1, 1, 59), (1, 12, 31, 86399), (1949, 12, 31, 86399), (1950, 1, 1, 0), (1969, 12, 31, 86399), (1970, 1, 1, 0), (1972, 6, 30, 86399),
+            (1999, 12, 31, 86399), (2000, 2, 28, 86399), (2000, 2, 29, 0), (2000, 2, 29, 86399), (2000, 3, 1, 0), (2016, 12, 31, 86399), (2017, 1, 1, 0), (2020, 1, 1, 45299), (2024, 2, 29, 43199),
+            (2049, 12, 31, 86399), (2050, 1, 1, 0), (2051, 6, 30, 86399), (2100, 2, 28, 86399), (2100, 3, 1, 0), (9999, 12, 31, 86340), (9999, 12, 31, 86399)];
+        let nanos = [0u32, 1, 500_000_000, 999_999_999, 1_000_000_000, 1_500_000_000, 1_999_999_999];
+        let deltas: Vec<TimeDelta> = vec![TimeDelta::zero(), TimeDelta::nanoseconds(1), TimeDelta::milliseconds(500), TimeDelta::seconds(1), TimeDelta::days(1), TimeDelta::days(7), TimeDelta::days(365), TimeDelta::days(366)];
+        let work: Vec<((i64, u32, u32, u32), u32)> = anchors.iter().flat_map(|&a| nanos.iter().map(move |&n| (a, n))).collect();
+        work.par_iter().for_each(|&((y, mo, d, sod), ns)| {
+            let mut lf = Lf::new(&ctx); let mut oc = Oc::new(); let (mut ev, mut nt) = (0u64, 0u64);
+            let leap = ns >= 1_000_000_000;
+            if leap && sod % 60 != 59 { return }
+            let ts = days_from_civil(y, mo, d) * 86400 + sod as i64;
+            // judge one obtained value
+            let mut judge = |lf: &mut Lf, oc: &mut Oc, route: &str, t: Time| {
+                let (tsec, tns) = inst(t);
+                let (ty, tmo, td) = civil_from_days(tsec.div_euclid(86400));
+                if !(1..=9999).contains(&ty) { bump(oc, "outside-years-1-9999"); return }
+                let tsod = tsec.rem_euclid(86400) as u32;
+                let wit = || format!("route={route} value={}+{tns}ns", render_ts(tsec));
+                ev += 1; if tns != 0 { nt += 1 }
+                let mut forms: Vec<(&str, Option<u8>)> = vec![("encode_varied", None), ("encode_generalized_time", Some(GEN))];
+                if (1950..=2049).contains(&ty) { forms.push(("encode_utc_time", Some(UTC))) }
+                for (name, force) in forms {
+                    let want = model_encode(ty, tmo, td, tsod, force);
+                    match guard(|| { let mut b = Vec::new(); match force { None => t.encode_varied().write_encoded(Mode::Der, &mut b), Some(GEN) => t.encode_generalized_time().write_encoded(Mode::Der, &mut b), _ => t.encode_utc_time().write_encoded(Mode::Der, &mut b) }.expect("Vec");
+                        let back = (lib_take(&b), lib_take_opt(&b)); (b, back) }) {
+                        Err(p) => lf.fail("C17.time.encode.no_panic", wit, || p.clone()),
+                        Ok((b, (x, yo))) => {
+                            if b != want { lf.fail("C17.time.route.encode", wit, || format!("{name} wrote {} expected {}", show(&b), show(&want))) }
+                            if x != Ok((tsec, 0)) || yo != Ok(Some((tsec, 0))) { lf.fail("C17.time.route.roundtrip", wit, || format!("{name} wrote {}; take_from gives {:?}, take_opt_from {:?}; the value's timestamp is {tsec}", show(&b), x, yo)) }
+                        }
+                    }
+                }
+                match guard(|| { let v = Validity::new(t, t); let mut b = Vec::new(); v.encode().write_encoded(Mode::Der, &mut b).expect("Vec");
+                    (Mode::Der.decode(&b[..], |cons| Validity::take_from(cons)).map(|r| (inst(r.not_before()), inst(r.not_after()))).ok(), inst(v.not_before()), inst(v.not_after()), b) }) {
+                    Err(p) => lf.fail("C17.validity.no_panic", wit, || p.clone()),
+                    Ok((back, nb, na, b)) => {
+                        if back != Some(((tsec, 0), (tsec, 0))) { lf.fail("C17.time.route.roundtrip", wit, || format!("Validity::encode wrote {}; take_from gives {:?}", hex(&b), back)) }
+                        if nb != (tsec, tns) || na != (tsec, tns) { lf.fail("C17.validity.trim", wit, || "Validity::new(t, t) does not hand t back".into()) }
+                    }
+                }
+                bump(oc, if tns >= 1_000_000_000 { "leap-second-form" } else if tns > 0 { "sub-second" } else { "whole-second" });
+            };
+            let mut obtained: Vec<(String, Time)> = Vec::new();
+            // chrono value
+            let Some(dt) = DateTime::<Utc>::from_timestamp(ts, ns) else { return };
+            obtained.push(("Time::new(DateTime::from_timestamp)".into(), Time::new(dt)));
+            obtained.push(("Time::from(DateTime)".into(), Time::from(dt)));
+            if ns == 0 { if let Ok(t) = guard(|| Time::utc(y as i32, mo, d, sod / 3600, sod / 60 % 60, sod % 60)) { obtained.push(("Time::utc".into(), t)) } }
+            // RFC 3339 spellings of the instant
+            let frac = match ns % 1_000_000_000 { 0 => String::new(), 500_000_000 => ".5".into(), n => format!(".{n:09}") };
+            for (off_s, off_txt) in [(0i64, "Z"), (0, "+00:00"), (3600, "+01:00"), (-19800, "-05:30"), (0, "z")] {
+                let local = ts + off_s;
+                let (ly, lmo, ld) = civil_from_days(local.div_euclid(86400));
+                if !(1..=9999).contains(&ly) { continue }
+                let ls = local.rem_euclid(86400);
+                let sec = ls % 60 + if leap { 1 } else { 0 };
+                for sep in ["T", " ", "t"] {
+                    if (sep != "T") != (off_txt == "z") && sep != "T" { continue }
+                    let text = format!("{ly:04}-{lmo:02}-{ld:02}{sep}{:02}:{:02}:{sec:02}{frac}{off_txt}", ls / 3600, ls / 60 % 60);
+                    match guard(|| Time::from_str(&text).ok()) { Ok(Some(t)) => obtained.push((format!("Time::from_str({text:?})"), t)), Ok(None) => bump(&mut oc, "spelling-refused"), Err(p) => lf.fail("C17.time.no_panic", || format!("Time::from_str({text:?})"), || p.clone()) }
+                    match guard(|| serde_json::from_str::<Time>(&format!("\"{text}\"")).ok()) { Ok(Some(t)) => obtained.push((format!("serde_json::from_str({text:?})"), t)), Ok(None) => bump(&mut oc, "spelling-refused"), Err(p) => lf.fail("C17.time.no_panic", || format!("serde {text:?}"), || p.clone()) }
+                }
+            }
+            // serde round trip, SystemTime, arithmetic, Validity
+            let t0 = Time::new(dt);
+            if let Ok(Some(t)) = guard(|| serde_json::to_string(&t0).ok().and_then(|j| serde_json::from_str::<Time>(&j).ok())) { obtained.push(("serde to_string -> from_str".into(), t)) }
+            if let Ok(Some(t)) = guard(|| serde_json::to_string(&Validity::new(t0, t0)).ok().and_then(|j| serde_json::from_str::<Validity>(&j).ok()).map(|v| v.not_after())) { obtained.push(("serde Validity round trip".into(), t)) }
+            if !leap {
+                let st = if ts >= 0 { UNIX_EPOCH.checked_add(Duration::new(ts as u64, ns)) } else { UNIX_EPOCH.checked_sub(Duration::new((-ts) as u64, 0)).and_then(|x| x.checked_add(Duration::new(0, ns))) };
+                if let Some(st) = st { if let Ok(t) = guard(|| Time::from(st)) { obtained.push(("Time::from(SystemTime)".into(), t)) } }
+            }
+            for dl in &deltas {
+                if let Ok(t) = guard(|| t0 + *dl) { obtained.push((format!("t + {dl}"), t)) } else { bump(&mut oc, "arithmetic-out-of-range") }
+                if let Ok(t) = guard(|| t0 - *dl) { obtained.push((format!("t - {dl}"), t)) } else { bump(&mut oc, "arithmetic-out-of-range") }
+            }
+            for (route, t) in obtained { judge(&mut lf, &mut oc, &route, t) }
+            sp.evals(ev); sp.nontrivial(nt); sp.merge_outcomes(&oc);
+        });
+        sp.sample_str(|| "route=Time::from_str(\"2016-12-31T23:59:60Z\") value=2016-12-31T23:59:59Z+1000000000ns".to_string());
+    }
+    sp.done(true, "24 anchors x 7 sub-second / leap forms x all routes");
 
     // ---------------------------------------------------------------- (14)
     let sp = ctx.space("encode.writers",
